@@ -279,7 +279,18 @@ def capture_call(impl, box, lmax, levelmin, L, infofile, ncpu, ndim):
 
     impl._get_cpu_list = recorder
     try:
-        r = impl.hilbert_cpu_list(meta=meta, scaling=1.0 * cm, select=sel, infofile=infofile)
+        import inspect
+
+        params = inspect.signature(impl.hilbert_cpu_list).parameters
+        if "scaling" in params:
+            r = impl.hilbert_cpu_list(meta=meta, scaling=1.0 * cm, select=sel, infofile=infofile)
+        else:
+            # the seam was given the whole units library instead of one scaling: a library in which every length is in cm
+            class _AllCm(dict):
+                def __missing__(self, key):
+                    return 1.0 * cm
+
+            r = impl.hilbert_cpu_list(meta=meta, units=_AllCm(), select=sel, infofile=infofile)
     finally:
         impl._get_cpu_list = real
     if r is None:
@@ -490,6 +501,14 @@ def as_callable(f, form):
     raise KeyError(form)
 
 
+def _cm_per(unit_label):
+    """centimetres in one unit of the label a snapshot carries (the positions may be written in another length unit)"""
+    from ..models import units as M2
+
+    info = M2.info_of_string(str(unit_label))
+    return 1.0 if info is None else info[0]
+
+
 def l3_filter(full_mesh, pred, out, thr):
     """indices of rows of the full load (snapshot form) that satisfy the predicate (my own evaluation)."""
     L = out.tree.levelmax
@@ -502,9 +521,9 @@ def l3_filter(full_mesh, pred, out, thr):
         lo = (a + 0.25) / n * box
         hi = (b + 0.75) / n * box
         if ndim == 1:
-            x = np.asarray(full_mesh["position_x"][2])
+            x = np.asarray(full_mesh["position_x"][2]) * _cm_per(full_mesh["position_x"][1])
         else:
-            x = np.asarray(full_mesh["position"][1][ax][1])
+            x = np.asarray(full_mesh["position"][1][ax][1]) * _cm_per(full_mesh["position"][1][ax][0])
         keep &= (x > lo) & (x < hi)
     if isinstance(thr, dict):
         for v, t in thr.items():
@@ -760,6 +779,31 @@ def cross_work(payload):
     return acc
 
 
+def env_work(payload):
+    """Layer 3 (box predicates) on outputs where the pre-selection prunes, inside an interpreter whose user configuration writes the mesh
+    coordinates (position, dx) in another length unit than the one-letter entries x, y, z."""
+    acc = Acc()
+    for oi, label in enumerate(("3d-lm3-3cpu", "3d-lm2-3cpu", "2d-lm3-5cpu")):
+        out = build_l3(label)
+        with _load.Scratch() as d:
+            out.write(d)
+            ds, _ = _load.load(d, out.nout)
+            full = C13.snapshot(ds)["mesh"]
+            dens = {"density": sorted(full["density"][2])}
+            for pi, pred in enumerate(l3_predicates(out.ndim, out.tree.levelmax, False)):
+                if pred["kind"] != "box" or "form" in pred or pi % 3:
+                    continue
+                problems, info = l3_case(out, d, full, dens, pred)
+                acc.case(nontrivial=True, outcome="ok" if not problems else "violation")
+                for sig, det in problems:
+                    acc.violation("C04:" + sig, (2000 + oi, pi), {"layer": 3, "output": label, "pred": pred}, det)
+    return acc
+
+
+def environment_replay(payload):
+    return replay_layer3(payload["case"])
+
+
 def replay_layer3(case):
     out = build_l3(case["output"])
     with _load.Scratch() as d:
@@ -778,6 +822,9 @@ def replay_layer3(case):
 
 
 def run(ctx):
+    from ..runner import EnvironmentRuns
+
+    envruns = EnvironmentRuns(MOD, "env_work", ctx.base(), ("user-positions-in-au",))
     a1 = Acc.merged(ctx.pool.shards(MOD, "layer1", ctx.base()))
     for sig, det in layer1_global(ctx.thorough):
         if sig.startswith("harness"):
@@ -788,7 +835,7 @@ def run(ctx):
     n3 = len(l3_outputs(ctx.thorough))
     a3 = Acc.merged(ctx.pool.shards(MOD, "layer3", ctx.base(), nshards=n3))
     a4 = Acc.merged(ctx.pool.shards(MOD, "cross_work", ctx.base()))
-    acc = Acc.merged([a1, a2, a3, a4])
+    acc = Acc.merged([a1, a2, a3, a4] + envruns.results())
     cov = {
         "cross_run_histories": a4.evaluations,
         "evaluations": acc.evaluations,
@@ -816,6 +863,10 @@ def run(ctx):
 
 
 def replay_sigs(case):
+    if case.get("environment"):
+        from ..runner import replay_in_environment
+
+        return replay_in_environment(MOD, case)
     if case.get("layer") == "cross" and case.get("mode") == "one-run-region-moved":
         return ["C04:" + s for s, _ in moving_case(case["label"], case["order"], case["carrier"])]
     if case.get("layer") == "cross":
